@@ -398,7 +398,7 @@ def check_analytic_shoot(case, rec):
             if qg is not None:
                 cond += abs(float(qg[0]) - (Qt.direct_rho_max(f[2], t[2]) if f[2] != t[2] else 0.0)) + 1e-3
         n_surf = ice_spec["n0"] - ice_spec["k"] * math.exp(ice_spec["a"] * sorted(ice_spec["range"])[1])
-        surface_grazing = (not p.direct) and abs(1 - beta / n_surf) < 1e-6
+        surface_grazing = (not p.direct) and abs(1 - beta / n_surf) < 1e-4
         if surface_grazing:
             # the ray tops out within a fraction of a millimetre of the surface: whether it is
             # mirrored there or turns just below (the analytic tracer clamps the turning depth
